@@ -167,7 +167,18 @@ class PythonExpressionMapper(StringifyMapper):
         if isinstance(expr, np.generic):
             expr = expr.item()
 
-        return repr(expr)
+        result = repr(expr)
+
+        # A signed constant has to be parenthesized wherever a sum would be:
+        # "-2**2" is not "(-2)**2".
+        from pymbolic.mapper.stringifier import PREC_SUM
+        enclosing_prec = args[0] if args else PREC_NONE
+        if (not (result.startswith("(") and result.endswith(")"))
+                and ("-" in result or "+" in result)
+                and enclosing_prec > PREC_SUM):
+            result = "(%s)" % result
+
+        return result
 
     def map_foreign(self, expr, *args):
         if expr is None:
